@@ -1041,3 +1041,191 @@ def run_c07(rep, spec, verbose=False, only=None):
             obls.append(o)
     rep.extra_trusted.append('proof rule V-FRESH (value transfers copy): soundness argued in gvc/core/patterns.py, side conditions checked on the emitted code')
     return obls
+
+
+# ---------------------------------------------------------------------------------------------------------------------
+# C06: 64-bit integer -> float conversions.  The translator emits `$flatten64(x)` (float64) or `$fround($flatten64(x))`
+# (float32) and $flatten64 is `x.$high * 4294967296 + x.$low`.  Both shapes are checked on the ESTree of the current tree;
+# the value is then the IEEE-754 term below and is compared, for ALL 2^64 operands, with Go's conversion (the integer
+# rounded once to the target format).
+def _strip_parens(n):
+    while n.get('type') in ('ParenthesizedExpression',) or (n.get('type') == 'SequenceExpression' and len(n['expressions']) == 1):
+        n = n.get('expression') or n['expressions'][0]
+    return n
+
+def _is_call(n, name, nargs=1):
+    n = _strip_parens(n)
+    return n.get('type') == 'CallExpression' and n['callee'].get('type') == 'Identifier' and n['callee']['name'] == name and len(n['arguments']) == nargs
+
+def run_c06_int64_float(rep, spec, verbose=False, only=None):
+    from .smt import Obligation
+    cases = [('I64F_int64_to_float32', 'int64', 'float32'), ('I64F_uint64_to_float32', 'uint64', 'float32'),
+             ('I64F_int64_to_float64', 'int64', 'float64'), ('I64F_uint64_to_float64', 'uint64', 'float64')]
+    if only: cases = [c for c in cases if only in c[0]]
+    if not cases:
+        return []
+    gosrc = 'package main\n\nfunc main() {}\n\n' + '\n'.join('func %s(x %s) %s { return %s(x) }' % (n, ik, fk, fk) for n, ik, fk in cases) + '\n'
+    with tempfile.TemporaryDirectory(prefix='gvc-pat-') as td:
+        keep = os.path.join(td, 'pkg.js')
+        out, err = e2e.run(gosrc, 'console.log("compiled")', keep=keep)
+        if out is None or not os.path.exists(keep):
+            rep.undecided.append(('C06 int64->float cases', 'the real compiler did not produce output: %s' % (err or '')[-400:]))
+            return []
+        dump = run_jsdump([os.path.join(props_repo(), 'compiler', 'prelude', 'numeric.js'), keep])
+    # $flatten64 must still be  x.$high * 4294967296 + x.$low
+    fl = find_emitted(dump['numeric.js']['program'], {'$flatten64'}).get('$flatten64')
+    if fl is None:
+        def walk(n, acc):
+            if isinstance(n, list):
+                for x in n: walk(x, acc)
+            elif isinstance(n, dict):
+                if n.get('type') == 'VariableDeclarator' and n['id'].get('name') == '$flatten64': acc.append(n['init'])
+                for k, v in n.items():
+                    if k != 'loc' and isinstance(v, (dict, list)): walk(v, acc)
+        acc = []; walk(dump['numeric.js']['program'], acc)
+        fl = acc[0] if acc else None
+    ok_shape = False
+    if fl is not None and fl.get('params') and fl['params'][0].get('name'):
+        pn = fl['params'][0]['name']
+        body = fl['body']
+        ret = body['body'][0]['argument'] if body.get('type') == 'BlockStatement' and body['body'] and body['body'][0].get('type') == 'ReturnStatement' else body
+        ret = _strip_parens(ret)
+        def mem(n, f):
+            n = _strip_parens(n)
+            return n.get('type') == 'MemberExpression' and not n.get('computed') and n['object'].get('name') == pn and n['property'].get('name') == f
+        if ret.get('type') == 'BinaryExpression' and ret['operator'] == '+' and mem(ret['right'], '$low'):
+            l = _strip_parens(ret['left'])
+            if l.get('type') == 'BinaryExpression' and l['operator'] == '*' and mem(l['left'], '$high') and l['right'].get('type') == 'Literal' and l['right'].get('value') == 4294967296:
+                ok_shape = True
+    if not ok_shape:
+        rep.undecided.append(('pattern I64F_*', '$flatten64 is no longer `x.$high * 4294967296 + x.$low`: the conversion obligations do not apply'))
+        return []
+    emitted = find_emitted(dump['pkg.js']['program'], {c[0] for c in cases})
+    obls = []
+    for name, ik, fk in cases:
+        fn = emitted.get(name)
+        if fn is None:
+            rep.undecided.append(('pattern ' + name, 'function not found in the emitted package')); continue
+        stmts = [s for s in fn['body']['body'] if s.get('type') != 'VariableDeclaration']
+        if len(stmts) != 1 or stmts[0].get('type') != 'ReturnStatement':
+            rep.undecided.append(('pattern ' + name, 'emitted body is not a single return')); continue
+        e = _strip_parens(stmts[0]['argument'])
+        shape = None
+        if _is_call(e, '$flatten64') and _strip_parens(e['arguments'][0]).get('name') == 'x': shape = 'flat'
+        elif _is_call(e, '$fround') and _is_call(e['arguments'][0], '$flatten64'): shape = 'fround'
+        elif _is_call(e, '$flatten64f32') and _strip_parens(e['arguments'][0]).get('name') == 'x': shape = 'helper'
+        if shape is None:
+            rep.undecided.append(('pattern ' + name, 'emitted conversion has a shape the obligation does not cover')); continue
+        signed = (ik == 'int64')
+        hi, lo = z3.BitVec('x.high', 32), z3.BitVec('x.low', 32)
+        x64 = z3.Concat(hi, lo)
+        rm = z3.RNE()
+        hif = z3.fpSignedToFP(rm, hi, F64) if signed else z3.fpUnsignedToFP(rm, hi, F64)
+        lof = z3.fpUnsignedToFP(rm, lo, F64)
+        flat = z3.fpAdd(rm, z3.fpMul(rm, hif, z3.FPVal(4294967296.0, F64)), lof)
+        got = fround(flat) if shape == 'fround' else flat
+        if shape == 'helper':
+            # the conversion helper of the prelude: its body is executed symbolically (IEEE doubles, ECMA-262 bit operators)
+            hf = _find_prelude_fn(dump['numeric.js']['program'], '$flatten64f32')
+            if hf is None or len(hf.get('params', [])) != 1 or hf['params'][0].get('type') != 'Identifier' or hf['body'].get('type') != 'BlockStatement':
+                rep.undecided.append(('pattern ' + name, '$flatten64f32 not found in numeric.js (or not a one-parameter function with a block body)')); continue
+            try:
+                paths = _exec_i64_helper(dump, spec, name, hf, hif, lof)
+            except (Unsupported, KeyError, RecursionError, AttributeError, TypeError, IndexError, z3.Z3Exception) as ex_:
+                rep.undecided.append(('pattern ' + name, '%s: %s' % (type(ex_).__name__, ex_))); continue
+        else:
+            paths = [('', [], got)]
+        if fk == 'float32':
+            want = z3.fpToFP(rm, z3.fpSignedToFP(rm, x64, F32) if signed else z3.fpUnsignedToFP(rm, x64, F32), F64)
+        else:
+            want = z3.fpSignedToFP(rm, x64, F64) if signed else z3.fpUnsignedToFP(rm, x64, F64)
+        rep.functions.append('emitted ' + name + (' + prelude $flatten64f32' if shape == 'helper' else ''))
+        rp = (lambda ob, model, name=name, ik=ik, fk=fk, gosrc=gosrc: i64f_replay(name, ik, fk, gosrc, ob))
+        # one bit-blasted query takes 15-55 s on every installed solver for the signed conversions; split on the range of
+        # the high word (each case a few seconds with cvc5) and prove the split exhaustive as an obligation of its own
+        if signed:
+            bs = [0, 1 << 7, 1 << 14, 1 << 21, 1 << 24, 1 << 27]
+            rngs = [('neg%d' % i, z3.And(hi < (-a if a else 0), hi >= -b if b else True)) for i, (a, b) in enumerate(zip(bs, bs[1:] + [None]))]
+            rngs += [('pos%d' % i, z3.And(hi >= a, hi < b if b else True)) for i, (a, b) in enumerate(zip(bs, bs[1:] + [None]))]
+        else:
+            bs = [0, 1 << 7, 1 << 14, 1 << 21, 1 << 27]
+            rngs = [('u%d' % i, z3.And(z3.UGE(hi, a), z3.ULT(hi, b) if b else True)) for i, (a, b) in enumerate(zip(bs, bs[1:] + [None]))]
+        for (pn, pc, r) in paths:
+            for cn, c in rngs:
+                o = Obligation('pattern %s/value%s[%s]' % (name, pn, cn), [c] + list(pc), r == want, 'proof', func='pattern ' + name)
+                o.meta['replayer'] = rp; o.meta['solvers'] = ['cvc5', 'z3', 'z3-new']; o.meta['timeout'] = 30
+                obls.append(o)
+        obls.append(Obligation('pattern %s/value[cases-exhaustive]' % name, [], z3.Or(*[c for _, c in rngs]), 'proof', func='pattern ' + name))
+    return obls
+
+def _find_prelude_fn(program, name):
+    acc = []
+    def walk(n):
+        if isinstance(n, list):
+            for x in n: walk(x)
+        elif isinstance(n, dict):
+            if n.get('type') == 'VariableDeclarator' and n.get('id', {}).get('name') == name and n.get('init') and n['init'].get('type') in ('ArrowFunctionExpression', 'FunctionExpression'):
+                acc.append(n['init'])
+            for k, v in n.items():
+                if k != 'loc' and isinstance(v, (dict, list)): walk(v)
+    walk(program)
+    return acc[0] if acc else None
+
+def _exec_i64_helper(dump, spec, name, hf, hif, lof):
+    """every path of the prelude helper on the pair {$high, $low}: (path tag, path condition, returned double)"""
+    ex = PatternExec(dump, spec)
+    reset_fresh()
+    ex.known_ranges = {}; ex.u32view = {}; ex.dmcache = {}; ex.tzinfo = {}; ex._keep = []
+    ex.mode = 'fp'
+    fr = Frame('pattern ' + name, hf, None)
+    fr.loops = {}; fr.loop_specs = {}
+    ex.frame = fr; ex.loop_cache = {}
+    st = State()
+    st.env[hf['params'][0]['name']] = JSObj({'$high': hif, '$low': lof})
+    entry = st.clone(); st.entry = entry; entry.entry = entry
+    fr.replayer = None
+    def run(state):
+        ex.block(state, hf['body']['body'])
+        return None
+    out = []
+    for n, (how, state, info) in enumerate(ex.run_paths(st, run)):
+        if how != 'return' or not (isinstance(info[0], z3.ExprRef) and z3.is_fp(info[0])):
+            raise Unsupported('$flatten64f32: a path that does not return a double (%s)' % how)
+        out.append(('#path%d' % n, list(state.pc), info[0]))
+    if ex.obls:
+        raise Unsupported('$flatten64f32: side obligations are not expected in the helper (%s)' % ex.obls[0].name)
+    return out
+
+def i64f_replay(name, ik, fk, gosrc, ob):
+    import numpy as np
+    s = z3.Solver(); s.set('timeout', 30000); s.add(*ob.hyps); s.add(z3.Not(ob.goal))
+    import signal
+    signal.alarm(60); r = s.check(); signal.alarm(0)
+    if r != z3.sat:
+        return {'violates': False, 'note': 'in-process solver did not produce a model'}
+    m = s.model()
+    hi = m.eval(z3.BitVec('x.high', 32), model_completion=True).as_long()
+    lo = m.eval(z3.BitVec('x.low', 32), model_completion=True).as_long()
+    u = (hi << 32) | lo
+    x = u - (1 << 64) if (ik == 'int64' and u >= (1 << 63)) else u
+    def rne(v, bits):          # the integer rounded once (ties to even) to a format with `bits` significant bits, exactly
+        m = abs(v); n = m.bit_length()
+        if n > bits:
+            sh = n - bits; q, r = m >> sh, m & ((1 << sh) - 1); half = 1 << (sh - 1)
+            if r > half or (r == half and (q & 1)): q += 1
+            m = q << sh
+        return float(-m if v < 0 else m)
+    want = rne(x, 24 if fk == 'float32' else 53)
+    T = '$Int64' if ik == 'int64' else '$Uint64'
+    out, err = e2e.run(gosrc, 'console.log("GVCVAL " + P.%s(mk64(%s, "%d")).toString());' % (name, T, x))
+    got = None
+    for line in (out or '').splitlines():
+        if line.startswith('GVCVAL '): got = float(line[7:].strip())
+    res = {'harness': 'the real compiler + prelude under node; reference: numpy correctly rounded conversion', 'input': {'x': x}, 'go_semantics': repr(want), 'emitted_code_gives': repr(got), 'violated_clauses': []}
+    if got is None:
+        res['violates'] = False; res['note'] = 'replay produced no value'
+        return res
+    if got != want:
+        res['violated_clauses'].append('%s(%d) is %r in Go, the emitted code gives %r' % (fk, x, want, got))
+    res['violates'] = bool(res['violated_clauses'])
+    return res
